@@ -4,6 +4,7 @@ MODULES = [
     "c01_compound",
     "c02_single",
     "c02_compound",
+    "c04_liftover",
     "c13_variants",
     "c15_tables",
     "c16_bins",
